@@ -8,7 +8,8 @@
    max_retries, and a BMC that answers every datagram in order and may send ONE
    unrelated frame (stale sequence number) before the reply to the datagrams listed in
    [c_stale c] - provided max_retries allows reading past it ([stale_ok c]: no such
-   frames, or max_retries >= 1).  Granularity: one step per access to shared state (lock, socket,
+   frames, or max_retries >= 1) - and loses no reply ([bmc_ok c]); the two sequence-number
+   theorems need no assumption on the BMC.  Granularity: one step per access to shared state (lock, socket,
    next_sequence_number) plus one for the code between the release and the return; below that (CPython byte code, the GIL) is not modelled. *)
 From Coq Require Import NArith List.
 From PyIpmi Require Import Lib.Res Model.Threads Proofs.ThreadsProofs.
@@ -17,7 +18,7 @@ Open Scope N_scope.
 
 (* mutual exclusion: at most one thread is between acquire and release, and it is
    the owner of the lock *)
-Theorem C14_mutex : forall c nsn0 s0 progs sched, stale_ok c -> forall t1 t2 th1 th2,
+Theorem C14_mutex : forall c nsn0 s0 progs sched, bmc_ok c -> forall t1 t2 th1 th2,
   let g := exec c sched (init nsn0 s0 progs) in
   nth_error (g_thr g) t1 = Some th1 -> nth_error (g_thr g) t2 = Some th2 ->
   in_cs (t_pc th1) = true -> in_cs (t_pc th2) = true -> t1 = t2.
@@ -29,7 +30,7 @@ Print Assumptions C14_mutex.
    by the same thread - the unrelated frame if the BMC sent one, and the BMC's reply to
    that very datagram); only while a thread holds the lock it may end with that
    thread's still unanswered datagram (and the unrelated frame it has read so far) *)
-Theorem C14_exchanges_not_interleaved : forall c nsn0 s0 progs sched, stale_ok c ->
+Theorem C14_exchanges_not_interleaved : forall c nsn0 s0 progs sched, bmc_ok c ->
   let g := exec c sched (init nsn0 s0 progs) in
   complete_exchanges c 0 (rev (g_wire g)) \/
   exists t k s h q l, g_lock g = Some t /\ complete_exchanges c 0 l /\
@@ -38,17 +39,19 @@ Theorem C14_exchanges_not_interleaved : forall c nsn0 s0 progs sched, stale_ok c
 Proof. exact not_interleaved_all. Qed.
 Print Assumptions C14_exchanges_not_interleaved.
 
-(* session sequence numbers in transmission order (session activated): the first
+(* session sequence numbers in transmission order (session activated) - for ANY BMC
+   behaviour of the model (lost replies, unrelated frames, any max_retries; no [bmc_ok]):
+   retransmissions are packed afresh and carry a new number.  The first
    datagram carries the successor of the initial value, every further one the successor
    of the previous one, where successor = Session.increment_sequence_number *)
-Theorem C14_seq_chain : forall c nsn0 s0 progs sched, stale_ok c -> c_active c = true ->
+Theorem C14_seq_chain : forall c nsn0 s0 progs sched, c_active c = true ->
   chain next_sseq s0 (tx_sseqs (exec c sched (init nsn0 s0 progs))).
 Proof. exact sseq_chain_all. Qed.
 Print Assumptions C14_seq_chain.
 
 (* ... hence strictly increasing, by exactly one, from each datagram to the next; the
    only exception is the 32-bit wrap 0xffffffff -> 1 (zero is skipped) *)
-Theorem C14_seq_increasing : forall c nsn0 s0 progs sched, stale_ok c -> c_active c = true ->
+Theorem C14_seq_increasing : forall c nsn0 s0 progs sched, c_active c = true ->
   forall l1 a b l2, tx_sseqs (exec c sched (init nsn0 s0 progs)) = l1 ++ a :: b :: l2 ->
   (a < 0xffffffff /\ b = a + 1) \/ (a = 0xffffffff /\ b = 1).
 Proof. exact sseq_adjacent_all. Qed.
@@ -60,7 +63,7 @@ Print Assumptions C14_seq_increasing.
    exchange [exch_tx] (an unrelated frame sent first is read and dropped, never returned).
    This holds although two requests may carry the same IPMB sequence number (see the
    example below): next_sequence_number is read-modify-written outside the lock. *)
-Theorem C14_own_reply : forall c nsn0 s0 progs sched, stale_ok c -> forall t th j o,
+Theorem C14_own_reply : forall c nsn0 s0 progs sched, bmc_ok c -> forall t th j o,
   let g := exec c sched (init nsn0 s0 progs) in
   nth_error (g_thr g) t = Some th -> nth_error (t_done th) j = Some o ->
   exists q r, o = Ok r /\ nth_error (t_reqs th) j = Some q /\
@@ -71,7 +74,7 @@ Print Assumptions C14_own_reply.
 
 (* no deadlock: as long as some thread has requests left, some thread can move; the
    queue of unmatched frames stays empty *)
-Theorem C14_no_deadlock : forall c nsn0 s0 progs sched, stale_ok c ->
+Theorem C14_no_deadlock : forall c nsn0 s0 progs sched, bmc_ok c ->
   let g := exec c sched (init nsn0 s0 progs) in
   all_finished g = false -> exists t, step c g t <> None.
 Proof. exact no_deadlock_all. Qed.
@@ -82,7 +85,7 @@ Print Assumptions C14_no_deadlock.
    carry rq_seq 1 and identical netfn/cmd, both threads finish with their own reply
    (payloads 0 and 1), session sequence 6 then 7 *)
 Example C14_duplicate_rq_seq :
-  let g := exec (mkCfg 0 true []) [0;1;0;1;0;1;1;1;1;1;1;0;0;0;0;0]%nat
+  let g := exec (mkCfg 0 true [] []) [0;1;0;1;0;1;1;1;1;1;1;0;0;0;0;0]%nat
                 (init 0 5 [[mkTReq 6 1]; [mkTReq 6 1]]) in
   rev (g_wire g) = [Sent 1%nat 0%nat 6 1 (mkTReq 6 1); Rcvd 1%nat (mkFrame 1 7 1 0);
                     Sent 0%nat 0%nat 7 1 (mkTReq 6 1); Rcvd 0%nat (mkFrame 1 7 1 1)]
@@ -94,10 +97,21 @@ Proof. vm_compute. repeat split; reflexivity. Qed.
    (rq_seq 0, payload 100) before the reply to datagram 0; the caller drops it and still
    gets its own reply *)
 Example C14_stale_frame_dropped :
-  let c := mkCfg 1 true [0] in
+  let c := mkCfg 1 true [0] [] in
   let g := exec c [0;0;0;0;0;0;0;0;0]%nat (init 0 5 [[mkTReq 6 1]]) in
-  stale_ok c
+  bmc_ok c
   /\ rev (g_wire g) = [Sent 0%nat 0%nat 6 1 (mkTReq 6 1); Rcvd 0%nat (mkFrame 0 7 1 100);
                        Rcvd 0%nat (mkFrame 1 7 1 0)]
   /\ map t_done (g_thr g) = [[Ok (mkFrame 1 7 1 0)]] /\ all_finished g = true /\ g_q g = [].
-Proof. split; [right; cbn; auto|]. vm_compute. repeat split; reflexivity. Qed.
+Proof. split; [split; [right; cbn; auto | reflexivity]|]. vm_compute. repeat split; reflexivity. Qed.
+
+(* the lost-reply path of the model: max_retries 1, the reply to datagram 0 is lost; the
+   caller times out, packs again (session sequence 7 after 6) and gets the reply to its
+   second datagram *)
+Example C14_lost_reply_repacked :
+  let c := mkCfg 1 true [] [0] in
+  let g := exec c [0;0;0;0;0;0;0;0;0;0]%nat (init 0 5 [[mkTReq 6 1]]) in
+  rev (g_wire g) = [Sent 0%nat 0%nat 6 1 (mkTReq 6 1); Sent 0%nat 0%nat 7 1 (mkTReq 6 1);
+                    Rcvd 0%nat (mkFrame 1 7 1 1)]
+  /\ map t_done (g_thr g) = [[Ok (mkFrame 1 7 1 1)]] /\ all_finished g = true.
+Proof. vm_compute. repeat split; reflexivity. Qed.
